@@ -30,6 +30,7 @@ import (
 	golog "log"
 	"net"
 	"os"
+	"path/filepath"
 	"runtime/debug"
 	"sort"
 	"strings"
@@ -39,6 +40,8 @@ import (
 	"testing"
 	"time"
 
+	"github.com/refraction-networking/conjure/pkg/station/geoip"
+	cjlib "github.com/refraction-networking/conjure/pkg/station/lib"
 	"github.com/refraction-networking/conjure/pkg/station/log"
 )
 
@@ -114,6 +117,18 @@ type c03hCase struct {
 	Conns  []c03hConnSpec `json:"conns"`
 	Epochs []int          `json:"epochs"` // ms after the start of the history
 	Hammer bool           `json:"hammer"` // PrintAndReset every 2 ms, unsynchronised, while connections are open
+	// configuration reloads (SIGHUP -> RegistrationManager.OnReload) between the connections of the history; a history
+	// with reloads runs on a station (RegistrationManager) of its own
+	Reloads []c03hReload `json:"reloads"`
+}
+
+// one reload: what the two configured GeoIP database paths are - "" (not configured), "missing" (a path to no
+// file), "corrupt" (a file of garbage bytes); Nil: the configuration has no GeoIP section at all
+type c03hReload struct {
+	AtMs int    `json:"at_ms"`
+	Nil  bool   `json:"nil"`
+	ASN  string `json:"asn_db"`
+	CC   string `json:"cc_db"`
 }
 
 type c03hEvent struct {
@@ -136,6 +151,66 @@ type c03hEvent struct {
 	Mid       bool      `json:"mid"` // epoch forced between the two updates of connection Conn's current loop iteration
 	AtMs      float64   `json:"at_ms"`
 	EpochPanic string   `json:"epoch_panic,omitempty"`
+	// reload
+	Reload      *c03hReload `json:"reload,omitempty"`
+	GeoKind     int         `json:"geo_kind"` // what regManager.GetGeoIP() holds after the reload: 0 nil interface, 1 EmptyDatabase, 2 a database (the stand-in / MaxMind)
+	ReloadPanic string      `json:"reload_panic,omitempty"`
+}
+
+func c03GeoKind(g geoip.Database) int {
+	if g == nil {
+		return 0
+	}
+	if _, ok := g.(*geoip.EmptyDatabase); ok {
+		return 1
+	}
+	return 2
+}
+
+// the real OnReload with a generated configuration, at a quiescent point of the history
+func (h *c03Hist) reload(s *vfStation, r c03hReload, dir string) {
+	path := func(kind, name string) string {
+		switch kind {
+		case "missing":
+			return filepath.Join(dir, "no-such-"+name+".mmdb")
+		case "corrupt":
+			p := filepath.Join(dir, name+"-corrupt.mmdb")
+			junk := make([]byte, 4096)
+			for i := range junk {
+				junk[i] = byte(i*131 + 7)
+			}
+			_ = os.WriteFile(p, junk, 0o644)
+			return p
+		}
+		return ""
+	}
+	conf := &cjlib.RegConfig{}
+	if !r.Nil {
+		conf.DBConfig = &geoip.DBConfig{ASNDBPath: path(r.ASN, "asn"), CCDBPath: path(r.CC, "cc")}
+	}
+	limit := time.Now().Add(1500 * time.Millisecond)
+	for {
+		h.mu.Lock()
+		q := h.quiescent()
+		h.mu.Unlock()
+		if q || time.Now().After(limit) {
+			break
+		}
+		time.Sleep(300 * time.Microsecond)
+	}
+	ev := c03hEvent{Ev: "reload", Conn: -1, Reload: &r, AtMs: h.ms(time.Now())}
+	func() {
+		defer func() {
+			if x := recover(); x != nil {
+				ev.ReloadPanic = fmt.Sprint(x)
+			}
+		}()
+		s.rm.OnReload(conf)
+	}()
+	ev.GeoKind = c03GeoKind(s.rm.GetGeoIP())
+	h.mu.Lock()
+	h.events = append(h.events, ev)
+	h.mu.Unlock()
 }
 
 type c03hEntry struct {
@@ -534,17 +609,7 @@ func (h *c03Hist) runConn(s *vfStation, id int, spec c03hConnSpec, v6ok bool, wg
 		conn.mid[k] = true
 	}
 	if spec.Peer != "" {
-		ip := net.ParseIP(spec.Peer)
-		switch spec.PeerForm {
-		case "tcp4":
-			conn.remote = &net.TCPAddr{IP: ip.To4(), Port: 40000 + id}
-		case "udp":
-			conn.remote = &net.UDPAddr{IP: ip, Port: 40000 + id}
-		case "str":
-			conn.remote = c03StrAddr{net.JoinHostPort(ip.String(), fmt.Sprint(40000+id))}
-		default:
-			conn.remote = &net.TCPAddr{IP: ip, Port: 40000 + id}
-		}
+		conn.remote = c03Remote(spec.Peer, spec.PeerForm, 40000+id)
 	}
 	ra := conn.RemoteAddr()
 	out.Remote = ra.String()
@@ -574,8 +639,17 @@ func (h *c03Hist) runConn(s *vfStation, id int, spec c03hConnSpec, v6ok bool, wg
 	h.mu.Lock()
 	h.conns[id] = conn
 	// what the GeoIP stand-in answers for this peer (the model derives the handler's asn / cc from it)
-	h.events = append(h.events, c03hEvent{Ev: "open", Conn: id, ASN: spec.ASN, CC: spec.CC, CCErr: spec.GeoErr == "cc", ASNErr: spec.GeoErr == "asn",
-		V4: out.PhantomV4, Tracked: out.Tracked, NTS: len(s.rm.GetWrappingTransports())})
+	oev := c03hEvent{Ev: "open", Conn: id, ASN: spec.ASN, CC: spec.CC, CCErr: spec.GeoErr == "cc", ASNErr: spec.GeoErr == "asn",
+		V4: out.PhantomV4, Tracked: out.Tracked, NTS: len(s.rm.GetWrappingTransports())}
+	if g := s.rm.GetGeoIP(); g != nil && rip != nil {
+		if _, standin := g.(*c03Geo); !standin {
+			// a reload has replaced the stand-in: the model is told what the installed database answers
+			cc, e1 := g.CC(rip)
+			asn, e2 := g.ASN(rip)
+			oev.CC, oev.CCErr, oev.ASN, oev.ASNErr = cc, e1 != nil, asn, e2 != nil
+		}
+	}
+	h.events = append(h.events, oev)
 	conn.started = true
 	h.mu.Unlock()
 
@@ -662,8 +736,30 @@ func c03RunHist(s *vfStation, cs c03hCase, v6ok bool, res *c03hRes, wgAll *sync.
 	for i := range res.Conns {
 		res.Conns[i] = &c03hConnRes{}
 	}
+	var rdir string
+	if len(cs.Reloads) > 0 {
+		s2, err := vfNewStation()
+		if err != nil {
+			res.Conns[0].Err = "station: " + err.Error()
+			return
+		}
+		s2.rm.GeoIP = c03GeoDB
+		s = s2
+		rdir, _ = os.MkdirTemp("", "c03reload")
+		defer os.RemoveAll(rdir)
+	}
 	h.start = time.Now()
 	var wg sync.WaitGroup
+	if len(cs.Reloads) > 0 {
+		wg.Add(1)
+		go func() {
+			defer wg.Done()
+			for _, r := range cs.Reloads {
+				time.Sleep(time.Until(h.start.Add(time.Duration(r.AtMs) * time.Millisecond)))
+				h.reload(s, r, rdir)
+			}
+		}()
+	}
 	for i := range cs.Conns {
 		wg.Add(1)
 		go h.runConn(s, i, cs.Conns[i], v6ok, &wg)
